@@ -100,6 +100,7 @@ def main():
     os.makedirs("replays", exist_ok=True)
     os.makedirs("evidence", exist_ok=True)
     N = budget["runs"]
+    if prop == "C18": N *= 12       # a stand-alone run costs a few milliseconds
     env = dict(os.environ)
     env["MALLOC_PERTURB_"] = "165"
 
@@ -125,16 +126,27 @@ def main():
             p.kill(); out, err = p.communicate()
             broken.append("worker %d exceeded the wall-clock cap" % w)
         done = False
+        last_begin = None
         for line in out.splitlines():
             if not line.startswith("{"): continue
             try: j = json.loads(line)
             except Exception: continue
+            if "begin" in j: last_begin = j; continue
             if j.get("done"): done = True; continue
             if j.get("nondeterministic"):
                 broken.append("run %s did not fail the same way twice (%s / %s)" % (j.get("run"), j.get("cls"), j.get("cls2"))); continue
             if j.get("ok", True): results.append(j)
             else: failures.append(j)
-        if not done and not any("worker %d " % w in b for b in broken):
+        if not done and prop == "C18" and last_begin is not None and p.returncode not in (0, 2):
+            # the stand-alone memory-manager simulation runs in the worker itself:
+            # a sanitizer abort or a signal inside run `last_begin` is a failure of that run
+            path = "replays/C18_%d_%s_crash.mm" % (seed, last_begin["begin"])
+            with open(path, "w") as f:
+                f.write("MMREPLAY 1\nrunseed %s\nfaults %s\nthorough %d\nops -1\nexpect crash\n" %
+                        (last_begin["runseed"], last_begin["faults"], 1 if tier == "thorough" else 0))
+            first = next((l for l in err.splitlines() if "ERROR:" in l or "runtime error" in l), "process died, rc=%s" % p.returncode)
+            failures.append({"run": last_begin["begin"], "cls": "CRASH:mm", "detail": first[:300], "replay": path, "crashed": True})
+        elif not done and not any("worker %d " % w in b for b in broken):
             broken.append("worker %d (supervisor process) ended early, rc=%s: %s" % (w, p.returncode, err[-300:]))
     restarts = 0
 
@@ -143,6 +155,7 @@ def main():
     viol, knownhits = [], []
     for f in failures:
         rc, out = replay(f["replay"])
+        if f.get("cls") == "CRASH:mm" and rc not in (0, 1, 2): rc = 1     # died again in a fresh process
         if rc != 1:
             broken.append("failure of run %s does not reproduce in a fresh process (rc=%s)" % (f["run"], rc)); continue
         pid = prop_of(f["cls"], prop)
